@@ -130,7 +130,11 @@ def main(argv):
                         if x.startswith("E:") and y.startswith("E:") and "user" not in (x, y)[0] and "user" not in y:
                             continue          # error classes are read off the message text; only the injected one is exact
                         src = sources[i] if i < len(sources) else ""
-                        if role == "i" and x.startswith("V:"):
+                        if "zz1" in src and x.startswith("V:"):
+                            prop.append((len(a[4]), replay_obj(failat, sources, "property failure: a text that is rejected as a whole took effect",
+                                                               ["the interlude text (rejected with an error) left zz1 defined: %s evaluates to %s (model %s)" % (unesc(src), x, y)],
+                                                               {"case": cid})))
+                        elif role == "i" and x.startswith("V:"):
                             prop.append((len(a[4]), replay_obj(failat, sources, "property failure: error swallowed into a successful result",
                                                                ["text %d %s must be rejected as a whole (model %s) but evaluated to %s" % (i, unesc(src), y, x)],
                                                                {"case": cid})))
